@@ -534,7 +534,7 @@ class DatasetWorld(object):
         m = self.model
         dims = list(m.dims)
         what = rng.choice(["take", "take", "index_prop", "reduce", "reduce", "take_axis", "sort_axis", "reindex_axis",
-                           "reindex_axis", "interp_axis", "scalar_op", "neg", "ds_op_ds", "stack_ds", "concatenate_ds"])
+                           "reindex_axis", "interp_axis", "scalar_op", "neg", "ds_op_ds", "stack_ds", "concatenate_ds", "reindex_like"])
         st = {"op": "dsop", "what": what, "adopt": rng.random() < 0.4}
         if what in ("take", "index_prop", "reduce", "take_axis", "sort_axis", "reindex_axis", "interp_axis", "concatenate_ds"):
             if not dims:
@@ -594,6 +594,15 @@ class DatasetWorld(object):
             elif what == "concatenate_ds":
                 st["shift"] = rng.choice([100, 200])
                 st["align"] = rng.random() < 0.3
+        elif what == "reindex_like":
+            used = [d for d in dims if any(d in v["dims"] for v in m.vars.values())]
+            if not used:
+                return None
+            from dsim.worlds.array_ops import _gen_new_labels
+            k = rng.randint(1, min(2, len(used)))
+            st["targets"] = {d: _gen_new_labels(rng, m.dims[d]["labels"]) for d in rng.sample(used, k) if m.dims[d]["labels"]}
+            if not st["targets"]:
+                return None
         elif what == "scalar_op":
             st["fn"] = rng.choice(["add", "sub", "mul", "truediv"])
             st["value"] = rng.choice([2, 0.5, -1])
